@@ -121,27 +121,40 @@ def rule_N(ctx):
         if isinstance(s_, ast.Assign) and isinstance(s_.targets[0], ast.Name):
             v = w.ex(s_.value, State())
             t = vr(v)
-            if t.startswith('int(1/2*') or t.startswith('floor(1/2*'):
+            if (t.startswith('int(1/2*') or t.startswith('floor(1/2*')) and t.endswith(')'):
                 Dname, Nname = s_.targets[0].id, t[t.index('*') + 1:-1]
     if Dname is None:
         raise shape_error('Filter.execute: half width D = int(N/2) not found', f.loc())
     rj = w.range_info(li.iter, State())
-    ctx.check(rj is not None and vr(rj[0]) == '0' and vr(rj[1]) == Nname and vr(rj[2]) == '1', 'C15.W', f,
+    ctx.check(rj is not None and vr(rj[0]) == '0' and vr(rj[1]) in (Nname, 'len(%s)' % kern) and vr(rj[2]) == '1', 'C15.W', f,
               'the window loop visits every kernel position 0..N-1', witness={'range': unparse(li.iter)}, node=li, key='jrange')
-    # index(j) - i at j = 0 and j = N-1 with N = 2D+1
+    # offset of the sample paired with weight j: index(j) - i at j = 0 and j = N-1 with N = 2D+1
     D = Rat.atom('D#')
-    e0 = w.ex(_index_node(li, afin), State({iv: Rat.atom(iv), jv: Rat.const(0), Dname: D}))
-    e1 = w.ex(_index_node(li, afin), State({iv: Rat.atom(iv), jv: D * Rat.const(2), Dname: D}))
+    idx_d = idx_seen.subst(Dname, D) if Dname in idx_seen.atoms() else idx_seen
+    e0 = idx_d.subst(jv, Rat.const(0))
+    e1 = idx_d.subst(jv, D * Rat.const(2))
     c0, c1 = e0 - Rat.atom(iv), e1 - Rat.atom(iv)
     ctx.check(w.rel.is_zero(c0 + c1) and (w.rel.is_zero(c0 - D) or w.rel.is_zero(c0 + D)), 'C15.W', f,
               'the window is centred: offsets run from -D to +D with D = N // 2',
               witness={'offset at j=0': vr(c0), 'offset at j=N-1': vr(c1)}, node=li, key='centred')
+    # orientation, where the operator table documents it: y(t) = int[x(z)*h(t-z)dz], i.e. weight j meets sample i - (j - D)
+    reg = ctx.prog.cls(OPS + '.Operator')
+    doc = ast.get_docstring(reg.node) or ''
+    if 'y(t) = int[x(z)*h(t-z)dz]' in doc.replace('= y(t)', 'y(t)'):
+        ctx.check(w.rel.is_zero(idx_d - (Rat.atom(iv) - Rat.atom(jv) + D)), 'C15.W', f,
+                  'weight j is paired with sample i - (j - D): the documented convolution y(t) = sum x(z) h(t - z)',
+                  witness={'sample index': vr(idx_seen), 'expected': '%s - %s + %s' % (iv, jv, Dname),
+                           'why': 'with the mirrored index an asymmetric weight list is applied back to front'}, node=li, key='orientation')
     # normalisation after the window loop and reset before
     post = lo.body[lo.body.index(li) + 1:]
     stp = State({iv: Rat.atom(iv)})
     po = [o for o in w.run(post, stp) if o.kind == 'fall']
-    divs = [e for o in po for e in o.state.events if e.kind == 'store' and e.aug == 'Div']
-    ctx.check(len(divs) == 1 and vr(divs[0].index) == iv and vr(divs[0].value) == nname, 'C15.N', f,
+    divs = [e for o in po for e in o.state.events if e.kind == 'store' and
+            (e.aug == 'Div' or (e.aug is None and isinstance(e.value, Rat) and not e.value.ispoly()))]
+    okdiv = len(divs) == 1 and vr(divs[0].index) == iv and (
+        (divs[0].aug == 'Div' and vr(divs[0].value) == nname) or
+        (divs[0].aug is None and w.rel.is_zero(divs[0].value - Rat.atom('%s[%s]' % (divs[0].name, iv)) / Rat.atom(nname))))
+    ctx.check(okdiv, 'C15.N', f,
               'the accumulated sum of output i is divided by the accumulated weights', witness={'stores': [repr(e) for e in divs]},
               node=lo, key='divide')
     n0 = sp[0].state.env.get(nname)
@@ -168,42 +181,116 @@ def rule_E(ctx):
     ok = ok and all(any('% 2) != 0' in repr(c) or 'Dirac' in repr(c) for c, _ in o.state.conds) for o in rets)
     ctx.check(ok, 'C15.E', f, 'a kernel with an even number of weights is rejected (and only such a kernel)',
               witness={'raise paths': [[repr(c) for c, _ in o.state.conds][-2:] for o in raises]}, node=f.node, key='even')
-    # boundary copy
-    bnd = [s for s in body if isinstance(s, ast.If) and 'boundary' in unparse(s.test)]
-    if len(bnd) != 1 or not isinstance(bnd[0].test, ast.UnaryOp):
-        raise shape_error('Filter.execute: `if not boundary` block not found', f.loc())
-    bl = [s for s in bnd[0].body if isinstance(s, ast.For)]
-    wb = Walker(f, loop_mode='skip')
+    # boundary copy: with the flag off, outputs [0, D) and [size-D, size) are the inputs at the same index
+    bnd = [s_ for s_ in body if isinstance(s_, ast.If) and 'boundary' in unparse(s_.test)]
+    if len(bnd) != 1:
+        raise shape_error('Filter.execute: boundary block not found', f.loc())
+    wb = Walker(f, loop_mode='once')
+    stb = wb.state_before(body, bnd[0]) or State()
+    stb.events = []
+    stb.conds = []
+    Dn = [k for k, v in stb.env.items() if isinstance(v, Rat) and vr(v).startswith(('int(1/2*', 'floor(1/2*'))]
+    if len(Dn) != 1:
+        raise shape_error('Filter.execute: half width D not found before the boundary block', f.loc(bnd[0]))
+    stb.env[Dn[0]] = Rat.atom('D')
     size = Rat.atom('%s.size()' % tr)
     D = Rat.atom('D')
-    got = []
-    for l in bl:
-        r = wb.range_info(l.iter, State())
-        bo = [o for o in wb.run(l.body, State({l.target.id: Rat.atom(l.target.id)})) if o.kind == 'fall']
-        sts = [e for o in bo for e in o.state.events if e.kind == 'store']
-        okc = len(sts) == 1 and vr(sts[0].index) == l.target.id and \
-            vr(sts[0].value) == '%s.getObsAnalyticalFeature(%s, %s)' % (tr, afin, l.target.id)
-        got.append((r, okc))
-    head = any(r is not None and vr(r[0]) == '0' and vr(r[1]) == 'D' and okc for r, okc in got)
-    tail = any(r is not None and wb.rel.is_zero(r[0] - (size - D)) and wb.rel.is_zero(r[1] - size) and okc for r, okc in got)
-    ctx.check(head and tail, 'C15.B', f,
+    copies = []
+    flagged = None
+    for o in wb.run([bnd[0]], stb):
+        sts = [e for e in o.state.events if e.kind == 'store' and e.loops]
+        if not sts:
+            continue
+        flagged = [repr(c) for c, _ in o.state.conds if 'boundary' in repr(c)]
+        for e in sts:
+            lp = e.loops[-1]
+            lv = lp['node'].target.id if isinstance(lp['node'], ast.For) and isinstance(lp['node'].target, ast.Name) else None
+            okc = lv is not None and vr(e.index) == lv and vr(e.value) == '%s.getObsAnalyticalFeature(%s, %s)' % (tr, afin, lv) and e.aug is None
+            for rg in _ranges(wb, lp):
+                copies.append((rg, okc))
+    head = any(wb.rel.is_zero(r[0]) and wb.rel.is_zero(r[1] - D) and okc for r, okc in copies)
+    tail = any(wb.rel.is_zero(r[0] - (size - D)) and wb.rel.is_zero(r[1] - size) and okc for r, okc in copies)
+    extra = [[vr(x) for x in r] for r, okc in copies if not ((wb.rel.is_zero(r[0]) and wb.rel.is_zero(r[1] - D)) or
+                                                             (wb.rel.is_zero(r[0] - (size - D)) and wb.rel.is_zero(r[1] - size)))]
+    ctx.check(head and tail and not extra and flagged is not None and any(t.startswith('not ') or '== 0' in t or 'False' in t for t in flagged), 'C15.B', f,
               'when boundaries are not filtered the first D and the last D outputs are the inputs at the same index',
-              witness={'ranges': [[vr(x) for x in r] if r else None for r, _ in got]}, node=bnd[0], key='boundary')
-    # the flag comes from the kernel object
-    txt = unparse(f.node)
-    ctx.recognise('boundary = %s.filterBoundary()' % kern in txt and 'boundary = False' in txt, 'C15.B', f,
-              'the boundary setting is read from the kernel object (False for plain weight lists)', witness={}, node=f.node, key='flag')
-    # list kernels: divided by their sum
-    okl = 'norm = np.sum(np.array(%s))' % kern in txt
-    lst = [s for s in ast.walk(f.node) if isinstance(s, ast.For) and 'len(%s)' % kern in unparse(s.iter)]
-    okd = False
-    for l in lst:
-        for s in l.body:
-            if isinstance(s, ast.AugAssign) and isinstance(s.op, ast.Div) and unparse(s.target) == '%s[%s]' % (kern, l.target.id) \
-                    and unparse(s.value) == 'norm' and unparse(l.iter) == 'range(len(%s))' % kern:
-                okd = True
-    ctx.check(okl and okd, 'C15.L', f, 'a list of weights is normalised: every weight divided by the sum of all weights',
-              witness={}, node=f.node, key='listnorm')
+              witness={'ranges copied': [[vr(x) for x in r] for r, _ in copies], 'copied value is the input at the same index': [okc for _, okc in copies],
+                       'condition': flagged}, node=bnd[0], key='boundary')
+    # kernel preparation: flag from the kernel object (False for lists), lists divided by their sum
+    prep_end = None
+    for k_, s_ in enumerate(body):
+        if isinstance(s_, ast.Assign) and unparse(s_.value) == 'len(%s)' % kern:
+            prep_end = k_
+    if prep_end is None:
+        raise shape_error('Filter.execute: N = len(kernel) not found', f.loc())
+    wp = Walker(f, loop_mode='once')
+    n_obj = n_lst = 0
+    for o in wp.run(body[:prep_end], State()):
+        if o.kind != 'fall':
+            continue
+        cs = [repr(c) for c, _ in o.state.conds]
+        isobj = any(c == 'bool(isinstance(%s, Kernel))' % kern for c in cs)
+        flag = o.state.env.get('boundary')
+        names = [k for k, v in o.state.env.items() if isinstance(v, Rat) and vr(v) == '%s.filterBoundary()' % kern]
+        if isobj:
+            n_obj += 1
+            ctx.check(bool(names), 'C15.B', f, 'for a kernel object the boundary setting is the one of the object',
+                      witness={'path': cs, 'names holding kernel.filterBoundary()': names}, node=f.node, key='flag-object')
+        else:
+            n_lst += 1
+            if names or not bnd:
+                continue
+            fl = [k for k in _names_in(bnd[0].test)]
+            vals = {k: vr(o.state.env.get(k)) for k in fl}
+            ctx.check(all(v in ('0', 'False') for v in vals.values()) and bool(vals), 'C15.B', f, 'for a plain list of weights boundaries are not filtered (flag False)',
+                      witness={'path': cs, 'flag': vals}, node=f.node, key='flag-list')
+            dv = [e for e in o.state.events if e.kind == 'store' and e.loops and (e.aug == 'Div' or (e.aug is None and isinstance(e.value, Rat) and not e.value.ispoly()))]
+            okl = False
+            for e in dv:
+                lp = e.loops[-1]
+                lv = lp['node'].target.id if isinstance(lp['node'], ast.For) and isinstance(lp['node'].target, ast.Name) else None
+                r = lp.get('range')
+                tot = e.value if e.aug == 'Div' else None
+                if e.aug is None:
+                    cur = Rat.atom('%s[%s]' % (e.name, lv))
+                    q = cur / e.value if not e.value.n.iszero() else None
+                    tot = q if q is not None and q.ispoly() else None
+                okl = okl or (lv is not None and r is not None and vr(r[0]) == '0' and vr(r[1]).startswith('len(') and vr(e.index) == lv and tot is not None and
+                              vr(tot).startswith('np.sum('))
+            ctx.check(okl, 'C15.L', f, 'a list of weights is normalised: every weight divided by the sum of all weights',
+                      witness={'path': cs, 'divisions': [repr(e) for e in dv]}, node=f.node, key='listnorm')
+    if n_obj == 0 or n_lst == 0:
+        raise shape_error('Filter.execute: kernel-object / weight-list preparation paths not both found', f.loc())
+
+
+def _names_in(n):
+    return sorted({x.id for x in ast.walk(n) if isinstance(x, ast.Name)})
+
+
+def _ranges(w, lp):
+    """index ranges [lo, hi) a for loop runs over: range(lo, hi), or a concatenation list(range(..)) + list(range(..))"""
+    import re
+    if lp.get('range') is not None:
+        r = lp['range']
+        if vr(r[2]) == '1':
+            return [(r[0], r[1])]
+        return []
+    it = lp.get('iter')
+    out = []
+    if isinstance(it, Rat) and it.ispoly():
+        for a in it.atoms():
+            m = re.match(r'^list\(range\((.*)\)\)$', a)
+            if not m:
+                return []
+            try:
+                call = ast.parse('range(%s)' % m.group(1), mode='eval').body
+                r = w.range_info(call, State())
+            except Exception:
+                return []
+            if r is None or vr(r[2]) != '1':
+                return []
+            out.append((r[0], r[1]))
+    return out
 
 
 def rule_K(ctx):
@@ -245,23 +332,92 @@ def rule_K(ctx):
               'sample abscissas are symmetric about 0: x(i) + x(size-1-i) == 0 (for every support, integral or not)',
               witness={'x(i)': vr(xa), 'x(size-1-i)': vr(xb), 'sum': vr(xa + xb)}, node=loops[0], key='symmetric')
     sts = [e for e in oa.state.events if e.kind == 'store']
-    nrm = [e for e in oa.state.events if e.kind == 'assign' and e.aug == 'Add']
-    okn = len(sts) == 1 and vr(sts[0].index) == iv and len(nrm) == 1 and \
-        w.rel.is_zero(nrm[0].value - Rat.atom(nrm[0].name + '@') - Rat.atom('%s[%s]' % (sts[0].name, iv)) ) or \
-        (len(sts) == 1 and len(nrm) == 1 and w.rel.is_zero(nrm[0].value - Rat.atom(nrm[0].name + '@') - sts[0].value))
+    nrm = [e for e in oa.state.events if e.kind == 'assign' and isinstance(e.value, Rat) and (e.name + '@') in e.value.atoms()
+           and not w.rel.is_zero(e.value - Rat.atom(e.name + '@'))]
+    okn = False
+    if len(sts) == 1 and len(nrm) == 1 and vr(sts[0].index) == iv and sts[0].aug is None and isinstance(sts[0].value, Rat):
+        inc = nrm[0].value - Rat.atom(nrm[0].name + '@')
+        okn = w.rel.is_zero(inc - sts[0].value) or w.rel.is_zero(inc - Rat.atom('%s[%s]' % (sts[0].name, iv)))
     ctx.check(bool(okn), 'C15.K', f, 'the normaliser accumulates exactly the sampled values', witness={'stores': [repr(e) for e in sts + nrm]},
               node=loops[0], key='accum')
     n0 = st.env.get(nrm[0].name) if nrm else None
     ctx.check(isinstance(n0, Rat) and n0.isconst() and n0.constval() == 0, 'C15.K', f, 'the normaliser starts at 0',
               witness={'initial': vr(n0)}, node=loops[0], key='norm0')
     r1 = w.range_info(loops[1].iter, st)
-    s3 = State({loops[1].target.id: Rat.atom(loops[1].target.id)})
+    lv1 = loops[1].target.id
+    s3 = st.fork()
+    s3.events = []
+    s3.env[lv1] = Rat.atom(lv1)
+    for v in names_stored(loops[0].body):
+        s3.env[v] = Rat.atom(v + '!')
     o1 = [o_ for o_ in w.run(loops[1].body, s3) if o_.kind == 'fall']
-    dv = [e for o_ in o1 for e in o_.state.events if e.kind == 'store' and e.aug == 'Div']
-    ctx.check(r1 is not None and w.rel.is_zero(r1[1] - size) and vr(r1[0]) == '0' and len(dv) == 1 and
-              vr(dv[0].index) == loops[1].target.id and nrm and vr(dv[0].value) == nrm[0].name, 'C15.K', f,
+    dv = [e for o_ in o1 for e in o_.state.events if e.kind == 'store']
+    okd = False
+    if len(dv) == 1 and nrm and vr(dv[0].index) == lv1:
+        if dv[0].aug == 'Div':
+            okd = vr(dv[0].value) == nrm[0].name + '!'
+        elif dv[0].aug is None and isinstance(dv[0].value, Rat):
+            okd = w.rel.is_zero(dv[0].value - Rat.atom('%s[%s]' % (dv[0].name, lv1)) / Rat.atom(nrm[0].name + '!'))
+    ctx.check(r1 is not None and w.rel.is_zero(r1[1] - size) and vr(r1[0]) == '0' and okd and sts and dv[0].name == sts[0].name, 'C15.K', f,
               'every window value is divided by the sum of all values (the window sums to 1)',
               witness={'range': unparse(loops[1].iter), 'stores': [repr(e) for e in dv]}, node=loops[1], key='normalise')
+    rets = [s_ for s_ in body if isinstance(s_, ast.Return)]
+    rv = w.ex(rets[0].value, st.fork()) if len(rets) == 1 and rets[0].value is not None else None
+    ctx.check(rv is not None and sts and w.base_text(rv) == sts[0].name, 'C15.K', f, 'the normalised window is what is returned',
+              witness={'returned': vr(rv), 'window': sts[0].name if sts else None}, node=f.node, key='returned')
+
+
+def rule_P(ctx):
+    """C15.P built-in kernels are non-negative on their support (premise of the weighted-mean clause)"""
+    from .. import interval
+    mod = ctx.prog.module('tracklib.core.kernel')
+    kernels = ('UniformKernel', 'TriangularKernel', 'GaussianKernel', 'ExponentialKernel', 'EpanechnikovKernel', 'CubicKernel', 'SphericKernel')
+    n_done = 0
+    for kn in kernels:
+        c = ctx.prog.cls('tracklib.core.kernel.' + kn)
+        init = c.methods.get('__init__')
+        if init is None:
+            raise shape_error('%s.__init__ not found' % kn)
+        par = init.params[1]
+        lam = [n for n in ast.walk(init.node) if isinstance(n, ast.Lambda) and len(n.args.args) == 1]
+        sup = [n.value for n in ast.walk(init.node) if isinstance(n, ast.Assign) and unparse(n.targets[0]) == 'self.support']
+        if len(lam) != 1 or len(sup) != 1:
+            raise shape_error('%s: kernel function / support not found' % kn, init.loc())
+        xv = lam[0].args.args[0].arg
+        worst = None
+        inconclusive = None
+        try:
+            for pval in (1.0, 2.0, 3.5, 10.0):
+                s_lo, s_hi = interval.ev(sup[0], {par: (pval, pval)})
+                support = s_hi
+                # Kernel.evaluate masks the function outside [-support, support]; toSlidingWindow samples integer abscissas inside it
+                steps = 400
+                for k in range(steps):
+                    lo = -support + 2 * support * k / steps
+                    hi = -support + 2 * support * (k + 1) / steps
+                    v = interval.ev(lam[0].body, {par: (pval, pval), xv: (lo, hi)})
+                    if v[1] < -1e-12 and (worst is None or v[1] < worst[2]):
+                        worst = (pval, (round(lo, 4), round(hi, 4)), v[1])
+                    elif v[0] < -1e-9 and v[1] >= 0 and hi - lo > 0 and inconclusive is None:
+                        # refine once around a sign change / indicator edge
+                        for m in range(20):
+                            l2 = lo + (hi - lo) * m / 20
+                            h2 = lo + (hi - lo) * (m + 1) / 20
+                            v2 = interval.ev(lam[0].body, {par: (pval, pval), xv: (l2, h2)})
+                            if v2[1] < -1e-12 and (worst is None or v2[1] < worst[2]):
+                                worst = (pval, (round(l2, 5), round(h2, 5)), v2[1])
+        except interval.Unsupported as e:
+            raise shape_error('%s: kernel function not interpretable on intervals: %s' % (kn, e), init.loc(lam[0]))
+        n_done += 1
+        ctx.check(worst is None, 'C15.P', init, '%s is non-negative everywhere on its support (its sliding window has no negative weight)' % kn,
+                  witness={'parameter': worst[0], 'abscissas': list(worst[1]), 'kernel value at most': worst[2],
+                           'why': 'a negative weight makes the output leave the range of the window values'} if worst else None,
+                  node=lam[0], key='nonneg:' + kn)
+    # the support mask of Kernel.evaluate
+    evf = ctx.prog.func(KER + '.evaluate')
+    ctx.recognise('abs(x) <= self.support' in unparse(evf.node), 'C15.P', evf, 'Kernel.evaluate is zero outside [-support, support]', node=evf.node)
+    if n_done < 7:
+        raise shape_error('only %d kernels analysed' % n_done)
 
 
 def rule_S(ctx):
@@ -290,7 +446,7 @@ def rule_S(ctx):
                   node=lo, key='kernel:' + vr(kv)[:40])
     for letter, setter in (('x', 'setXFromAnalyticalFeature'), ('y', 'setYFromAnalyticalFeature'), ('z', 'setZFromAnalyticalFeature')):
         st = State({av: letter})
-        outs = [o for o in w.run(lo.body, st) if o.kind == 'fall']
+        outs = [o for o in w.run(lo.body, st) if o.kind in ('fall', 'continue')]
         if len(outs) != 1:
             raise shape_error('filter_seq body not single-path for %s' % letter, f.loc(lo))
         evs = outs[0].state.events
@@ -300,8 +456,34 @@ def rule_S(ctx):
             vr(ops[0].args[0]) == 'Operator.FILTER' and sets[0].args[0] == ops[0].args[3] and ops[0].seq < sets[0].seq
         ctx.check(ok, 'C15.S', f, 'coordinate %s is filtered into a scratch feature and written back with %s from that same feature' % (letter, setter),
                   witness={'operate': [vr(a) for a in ops[0].args] if ops else None, 'setters': [e.name for e in sets]}, node=lo, key='coord:' + letter)
+    # the filter works on the track it is given: Track.smooth rebinds a local name with the result, so only the in-place effect reaches the caller
+    sm = ctx.prog.func('tracklib.core.track.Track.smooth')
+    uses = [n for n in ast.walk(sm.node) if isinstance(n, ast.Call) and getattr(n.func, 'id', None) == 'filter_seq']
+    if len(uses) != 1 or not uses[0].args or unparse(uses[0].args[0]) != 'self':
+        raise shape_error('Track.smooth: filter_seq(self, ...) not found', sm.loc())
+    keeps = [n for n in ast.walk(sm.node) if isinstance(n, ast.Return) and n.value is not None]
+    relies = not keeps
+    wfull = Walker(f, loop_mode='once')
+    recvs = {}
+    rets = []
+    for o in wfull.run(body_nodocstring(f), State()):
+        for e in o.state.events:
+            if e.kind == 'call' and (e.name == 'operate' or (e.name.startswith('set') and e.name.endswith('FromAnalyticalFeature'))):
+                recvs.setdefault(vr(e.recv), e)
+        if o.kind == 'return':
+            rets.append(vr(o.value))
+    if not recvs:
+        raise shape_error('filter_seq: no filtering call found', f.loc())
+    if relies:
+        for rt_, e in sorted(recvs.items()):
+            ctx.check(rt_ == tr, 'C15.S', f, 'the sequence filter modifies the track it was given (Track.smooth discards the returned object)',
+                      witness={'object filtered': rt_, 'parameter': tr, 'call': repr(e),
+                               'why': 'Track.smooth does `self = filter_seq(self, ...)`: rebinding a local name; if a copy is filtered the caller\'s track is left unsmoothed'},
+                      node=e.node, key='in-place:' + rt_)
+    ctx.check(all(r_ in recvs or r_ == tr for r_ in rets) and bool(rets), 'C15.S', f, 'the track returned is the one that was filtered',
+              witness={'returned': rets, 'filtered': sorted(recvs)}, node=f.node, key='returned')
     st = State({av: 'speed'})
-    outs = [o for o in w.run(lo.body, st) if o.kind == 'fall']
+    outs = [o for o in w.run(lo.body, st) if o.kind in ('fall', 'continue')]
     ops = [e for o in outs for e in o.state.events if e.kind == 'call' and e.name == 'operate']
     ctx.check(len(ops) == 1 and ops[0].args[1] == 'speed' and ops[0].args[3] == 'speed', 'C15.S', f,
               'a named feature is filtered in place', witness={}, node=lo, key='feature')
@@ -312,5 +494,6 @@ RULES = [
     ('C15.E', rule_E, 'quick'),
     ('C15.K', rule_K, 'quick'),
     ('C15.S', rule_S, 'quick'),
+    ('C15.P', rule_P, 'quick'),
 ]
 MIN_OBLIGATIONS = 15
